@@ -215,9 +215,9 @@ def coordSizeOfCode (code : Nat) : Option Nat :=
   if code == 1 then some 32 else if code == 2 then some 48 else none
 def hashOfCoord (n : Nat) : HashAlg := if n == 32 then .sha256 else .sha384
 
-def romSignedV21 (co : CryptoOps) (env : RomEnv) (img : Bytes) : Rom Accepted := do
-  let certOff := rd32 img offCrcOrCert
-  need (certOff ≥ ivtSize ∧ certOff % 4 == 0) "certificate block offset"
+/-- the certificate block v2.1 at `certOff`: header, root key record, optional ISK certificate.
+    Returns the key that signs the image (raw X‖Y), the end of the block and the ISK obligation -/
+def romCertV21 (co : CryptoOps) (env : RomEnv) (img : Bytes) (certOff : Nat) : Rom (Bytes × Nat × List Obligation) := do
   need (certOff + certV21HeaderSize + 4 ≤ img.length) "certificate block header outside the image"
   need (sub img certOff (certOff + 4) == certV21Magic) "certificate block magic"
   need (rd16 img (certOff + 4) == 1 ∧ rd16 img (certOff + 6) == 2) "certificate block version"   -- minor 1, major 2
@@ -260,41 +260,48 @@ def romSignedV21 (co : CryptoOps) (env : RomEnv) (img : Bytes) : Rom Accepted :=
           -- the root key signs the root key record and the ISK certificate up to its signature
           pure (iskPub, sigStart + 2 * cs, [Obligation.ecdsa rootPub (sub img rkr sigStart) (sub img sigStart (sigStart + 2 * cs))]))
     need (certEnd == certOff + blockSize) "certificate block size"
-    -- manifest
-    need (certEnd + manifestHeaderSize ≤ img.length) "manifest outside the image"
-    need (sub img certEnd (certEnd + 4) == manifestMagic) "manifest magic"
-    need (rd32 img (certEnd + 4) == manifestVersion) "manifest version"
-    let mLen := rd32 img (certEnd + 12)
-    let mFlags := rd32 img (certEnd + 16)
-    let mEnd := certEnd + mLen
-    let extra := mLen - manifestHeaderSize - (if env.manifestKind == .crc then 4 else 0)
-    need (mLen ≥ manifestHeaderSize + (if env.manifestKind == .crc then 4 else 0) ∧ mEnd ≤ img.length) "manifest length"
-    need (extra == 0 ∨ extra == env.tzSize) "TrustZone data in the manifest"
-    let tzType := (rd32 img offFlags >>> shiftTzType) &&& maskTzType
-    need ((extra != 0) == (tzType == tzCustom)) "TrustZone type and manifest data"
-    need (env.manifestKind != .crc ∨ rd32 img (mEnd - 4) == Crc.crc crcParams (img.take (mEnd - 4))) "manifest crc"
-    -- image signature over everything before it, by the ISK (or the root key)
-    let sigLen := signPub.length
-    need (mEnd + sigLen ≤ img.length) "signature outside the image"
-    let digestLen ← (
-      if env.manifestKind == .digest ∧ mFlags &&& manifestDigestPresent != 0 then
-        match mFlags &&& manifestHashMask with
-        | 1 => (do
-            need (sub img (mEnd + sigLen) (mEnd + sigLen + 32) == co.hash .sha256 (img.take mEnd)) "manifest digest"
-            pure 32 : Rom Nat)
-        | 2 => (do
-            need (sub img (mEnd + sigLen) (mEnd + sigLen + 48) == co.hash .sha384 (img.take mEnd)) "manifest digest"
-            pure 48)
-        | 3 => (do
-            need (sub img (mEnd + sigLen) (mEnd + sigLen + 64) == co.hash .sha512 (img.take mEnd)) "manifest digest"
-            pure 64)
-        | _ => .error "manifest digest type"
-      else (do
-        need (env.manifestKind == .crc ∨ mFlags == 0) "manifest flags"
-        pure 0))
-    need (mEnd + sigLen + digestLen == img.length) "image length"
-    pure { obligations := obs ++ [.ecdsa signPub (img.take mEnd) (sub img mEnd (mEnd + sigLen))]
-           authenticated := [(0, img.length)] }
+    pure (signPub, certEnd, obs)
+
+/-- signed image with a v2.1 block and a manifest -/
+def romSignedV21 (co : CryptoOps) (env : RomEnv) (img : Bytes) : Rom Accepted := do
+  let certOff := rd32 img offCrcOrCert
+  need (certOff ≥ ivtSize ∧ certOff % 4 == 0) "certificate block offset"
+  let (signPub, certEnd, obs) ← romCertV21 co env img certOff
+  -- manifest
+  need (certEnd + manifestHeaderSize ≤ img.length) "manifest outside the image"
+  need (sub img certEnd (certEnd + 4) == manifestMagic) "manifest magic"
+  need (rd32 img (certEnd + 4) == manifestVersion) "manifest version"
+  let mLen := rd32 img (certEnd + 12)
+  let mFlags := rd32 img (certEnd + 16)
+  let mEnd := certEnd + mLen
+  let extra := mLen - manifestHeaderSize - (if env.manifestKind == .crc then 4 else 0)
+  need (mLen ≥ manifestHeaderSize + (if env.manifestKind == .crc then 4 else 0) ∧ mEnd ≤ img.length) "manifest length"
+  need (extra == 0 ∨ extra == env.tzSize) "TrustZone data in the manifest"
+  let tzType := (rd32 img offFlags >>> shiftTzType) &&& maskTzType
+  need ((extra != 0) == (tzType == tzCustom)) "TrustZone type and manifest data"
+  need (env.manifestKind != .crc ∨ rd32 img (mEnd - 4) == Crc.crc crcParams (img.take (mEnd - 4))) "manifest crc"
+  -- image signature over everything before it, by the ISK (or the root key)
+  let sigLen := signPub.length
+  need (mEnd + sigLen ≤ img.length) "signature outside the image"
+  let digestLen ← (
+    if env.manifestKind == .digest ∧ mFlags &&& manifestDigestPresent != 0 then
+      match mFlags &&& manifestHashMask with
+      | 1 => (do
+          need (sub img (mEnd + sigLen) (mEnd + sigLen + 32) == co.hash .sha256 (img.take mEnd)) "manifest digest"
+          pure 32 : Rom Nat)
+      | 2 => (do
+          need (sub img (mEnd + sigLen) (mEnd + sigLen + 48) == co.hash .sha384 (img.take mEnd)) "manifest digest"
+          pure 48)
+      | 3 => (do
+          need (sub img (mEnd + sigLen) (mEnd + sigLen + 64) == co.hash .sha512 (img.take mEnd)) "manifest digest"
+          pure 64)
+      | _ => .error "manifest digest type"
+    else (do
+      need (env.manifestKind == .crc ∨ mFlags == 0) "manifest flags"
+      pure 0))
+  need (mEnd + sigLen + digestLen == img.length) "image length"
+  pure { obligations := obs ++ [.ecdsa signPub (img.take mEnd) (sub img mEnd (mEnd + sigLen))]
+         authenticated := [(0, img.length)] }
 
 /-! ## encrypted load-to-RAM image -/
 
